@@ -210,6 +210,13 @@ fn cases() -> Vec<Case> {
                     for (i, &x) in times.iter().enumerate() {
                         ops.push(Op::WA { pts: T(secs(x)), data: Bytes::new(frames::audio_frame(ac, i as u32, 6).0) });
                     }
+                    if vshape == 0 && astart == 0 {
+                        // the same history ending in an audio call that is refused for its payload
+                        // (one second on): the last accepted sample keeps the duration it had
+                        let mut ops2 = ops.clone();
+                        ops2.push(Op::WA { pts: T(secs(t) + 1.0), data: Bytes::new(vec![0x03]) });
+                        v.push(Case::Prog { name: format!("audio-gaps/{ac:?}/refused-last/g1={g1}/g2={g2:?}"), cfg: cfg.clone(), ops: ops2 });
+                    }
                     v.push(Case::Prog { name: format!("audio-gaps/{ac:?}/v{vshape}/start={astart}/g1={g1}/g2={g2:?}"), cfg, ops });
                 }
             }
